@@ -2,7 +2,7 @@
 import json,sys,subprocess,os
 pid=sys.argv[1]; rnd=sys.argv[2]
 prevs=[]
-for suf in ['','r2','r3','r4','r5','r6','r7','r8']:
+for suf in ['','r2','r3','r4','r5','r6','r7','r8','r9','r10']:
     f=f'/verif/seeded/{pid}{suf}/meta.json'
     if os.path.exists(f): prevs.append(json.load(open(f))['summary'][:380])
 base=subprocess.check_output(['python3',os.path.join(os.path.dirname(os.path.abspath(__file__)),'agent_prompt.py'),pid]).decode()
@@ -14,4 +14,7 @@ extra=f"""
 ADDITIONAL REQUIREMENT: {len(prevs)} other engineers already produced seeded changes for this property. Yours must be DIFFERENT from all of them, in kind and in location (another function or mechanism; another source file if the property involves several), and should break a part of the property's promise that none of them touches.
 {lst}
 Aim for subtlety: a change whose effect needs a multi-step history, a rarely used method, argument form or trait impl, a particular minimum alignment or element size (zero-sized, over-aligned, odd-sized types), an allocation failure or a panic at one particular point, a particular interleaving of several arenas or collections, or two sites that are each fine alone. The less frequently ordinary random use would stumble over it, the better - but it must be a real violation of the property as stated, and your demonstration must show it."""
+extra+=f"""
+
+IMPORTANT PROCESS NOTE: do NOT use `git stash` (the stash is shared by all worktrees of the repository and other engineers are working in sibling worktrees right now). To run your demonstration without your change, save the change first (`git -C /tmp/seed_{tag} diff -- src/ > /tmp/seed_out/{tag}/patch.diff`), remove it with `git -C /tmp/seed_{tag} apply -R /tmp/seed_out/{tag}/patch.diff`, run the demo, and re-apply it with `git -C /tmp/seed_{tag} apply /tmp/seed_out/{tag}/patch.diff`. Use at most 4 parallel cargo jobs (`-j4`); the machine is shared."""
 print(base+extra)
